@@ -64,7 +64,11 @@ def gen_write(rng, p):
             n = max(32, min((n + 31) // 32 * 32, total_bits - i))
             tag = "%s[%d]{%d}" % (tag.split("[")[0], i, n)
             desc = ("boolarr", i, n, desc[3])
-        return tag, [rng.random() < 0.5 for _ in range(n)], desc
+        vals = [rng.random() < 0.5 for _ in range(n)]
+        if rng.random() < 0.35:
+            # the caller's list may spell True by any truthy number (2, 5, 0x80, −1): a BOOL is its truth value
+            vals = [(rng.choice([True, 1, 2, 5, 0x80, -1, 255]) if b else rng.choice([False, 0])) for b in vals]
+        return tag, vals, desc
     if k == "dwordmember":
         return None
     if k == "array":
@@ -133,6 +137,8 @@ def canonical(desc, v):
         return [canon(desc[1], desc[2], x) for x in v]
     if k == "item":
         return canon(desc[1], desc[2], v)
+    if k == "boolarr" and isinstance(v, (list, tuple)):
+        return [bool(x) for x in v]          # a BOOL is the truth value of what the caller wrote
     return v
 
 
